@@ -56,7 +56,13 @@ const maxNodelets = 4 // Number of nodelets for labels (both numeric and non)
 // ComposeDot creates and writes a in the DOT format to the writer, using
 // the configurations given.
 func ComposeDot(w io.Writer, g *Graph, a *DotAttributes, c *DotConfig) {
-	builder := &builder{w, a, c}
+	// Formatted values end with the unit of the profile's sample type, an
+	// arbitrary string: escape them like all other text placed in the graph.
+	config := *c
+	if format := c.FormatValue; format != nil {
+		config.FormatValue = func(v int64) string { return escapeForDot(format(v)) }
+	}
+	builder := &builder{w, a, &config}
 
 	// Begin constructing DOT by adding a title and legend.
 	builder.start()
